@@ -51,7 +51,7 @@ func runC05(c *core.Ctx) error {
 	r6 := c.NewRule("R05.6", "S2", "handler calls pass args[0..n) in order; matching runs on the normalised, prefix-cut path", 20)
 	r1.Note("fixtures: %v", ex.FixtureNames())
 
-	r7 := c.NewRule("R05.7", "S1", "route-tree construction: Tails lists every static child; a split always cuts the existing node's prefix", 2)
+	r7 := c.NewRule("R05.7", "S1", "route-tree construction: Tails lists every static child; a split always cuts the existing node's prefix at the first differing byte", 3)
 	checkRouteTreeS1(c, r7)
 	for _, fx := range ex.Fixtures {
 		pkg := ex.Prog.PkgBy[fx.PkgPath]
@@ -960,6 +960,51 @@ func checkRouteTreeS1(c *core.Ctx, r *core.Rule) {
 	if err != nil {
 		r.Undecided("load:gen", "-", err.Error())
 		return
+	}
+	// (c) longestPrefix: the split point is the index of the first differing byte itself. Children of a node are
+	// keyed by their first byte; a split point moved away from the first difference leaves two siblings with the
+	// same first byte (a duplicate `case` in the generated switch) or an empty prefix.
+	if lp := prog.Func(pkgGen, "longestPrefix"); lp == nil {
+		r.Undecided("anchor:longestPrefix", "-", "gen.longestPrefix not found")
+	} else {
+		found := false
+		for _, b := range lp.Blocks {
+			iff, ok := b.Instrs[len(b.Instrs)-1].(*ssa.If)
+			if !ok {
+				continue
+			}
+			bo, ok := iff.Cond.(*ssa.BinOp)
+			if !ok || (bo.Op != token.NEQ && bo.Op != token.EQL) {
+				continue
+			}
+			idxOf := func(v ssa.Value) ssa.Value {
+				switch x := v.(type) {
+				case *ssa.Index:
+					return x.Index
+				case *ssa.Lookup:
+					return x.Index
+				}
+				return nil
+			}
+			ix, iy := idxOf(bo.X), idxOf(bo.Y)
+			if ix == nil || ix != iy {
+				continue
+			}
+			found = true
+			diff := b.Succs[0]
+			if bo.Op == token.EQL {
+				diff = b.Succs[1]
+			}
+			ret, isRet := diff.Instrs[len(diff.Instrs)-1].(*ssa.Return)
+			if isRet && len(ret.Results) == 1 && ret.Results[0] == ix {
+				r.Pass("longestPrefix returns the index of the first differing byte")
+			} else {
+				r.Fail("longestPrefix:split-point", c.Pos(iff.Cond.Pos()), "longestPrefix does not return the index of the first differing byte on the mismatch edge: after a split two sibling nodes can start with the same byte (duplicate `case` in the generated router) or the shared node gets an empty prefix")
+			}
+		}
+		if !found {
+			r.Undecided("longestPrefix:shape", c.Pos(lp.Pos()), "no comparison k1[i] != k2[i] found in longestPrefix")
+		}
 	}
 	// (a) Tails: the only exit is after the loop, and every non-parameter child contributes its head
 	if tails := prog.Func(pkgGen, "RouteNode.Tails"); tails == nil {
